@@ -11,7 +11,7 @@ from hypothesis import strategies as st
 
 from vlib.runner import Fail, InvalidCase
 
-OP_POOL = ["dfg", "noop", "not", "mktuple", "custom", "input", "output", "tag", "divmod"]
+OP_POOL = ["dfg", "noop", "not", "mktuple", "custom", "input", "output", "tag", "divmod", "sink0", "src0"]
 
 
 def mk_pool_op(name):
@@ -30,6 +30,10 @@ def mk_pool_op(name):
         return ops.MakeTuple([tys.Bool, tys.Qubit])
     if name == "custom":
         return ops.Custom("op", tys.FunctionType([tys.Bool], [tys.Bool, tys.Bool]), extension="my.ext")
+    if name == "sink0":
+        return ops.Custom("sink", tys.FunctionType([tys.Bool], []), extension="my.ext")
+    if name == "src0":
+        return ops.Custom("src", tys.FunctionType([], [tys.Bool]), extension="my.ext")
     if name == "input":
         return ops.Input([tys.Bool, tys.Bool])
     if name == "output":
